@@ -640,3 +640,25 @@ def rule_sentinel(chk: Check, model: Model, rid: str):
     r = ev.run_function(f)
     ok = r.ret[0] == "call" and T.call_name(r.ret) == "rex.base.Graph.stack" and r.ret[2][0][0] == "comp" and T.call_name(r.ret[2][0][2]).endswith(".to_graph")
     chk.add(rid, "ExperimentRecord.to_graph stacks every episode's graph", ok, f"to_graph returns {T.show(r.ret)[:140]}", chk.loc(f))
+
+
+def stores_through_derived_tables(r):
+    """The store_sub events of an evaluated function, with the stores of a *second pass* over a table read in terms of that table's
+    own entries: in `for key, c in table.items(): other[key] = f(c)` (table = {k(x): v(x) for x in ...} built by an earlier loop) the store
+    is `other[k(x)] = f(v(x))`.  Sound for the derived table whatever the keys are: it is keyed exactly like the table it is derived from."""
+    import dataclasses
+    out = []
+    for e in r.events:
+        if e.kind != "store_sub":
+            continue
+        if len(e.loops) == 1 and e.loops[0] in r.loops:
+            l = r.loops[e.loops[0]]
+            it = l.iter
+            if it is not None and it[0] == "call" and not it[2] and isinstance(it[1], tuple) and it[1][0] == "attr" and it[1][2] == "items" and it[1][1][0] == "comp" \
+                    and it[1][1][1] == "dict" and it[1][1][2][0] == "tuple" and len(it[1][1][2][1]) == 2:
+                k_, v_ = it[1][1][2][1]
+                el = ("elem", it, l.uid)
+                m = {T.mk_index(el, T.ZERO): k_, T.mk_index(el, T.ONE): v_}
+                e = dataclasses.replace(e, key=T.subst(e.key, m) if e.key is not None else None, term=T.subst(e.term, m) if e.term is not None else None)
+        out.append(e)
+    return out
